@@ -371,11 +371,14 @@ impl<'a> Runner<'a> {
     }
 
     /// Power-cycle clause: the set of preserved variables is the warm-restart set.
-    fn check_power(&mut self, post: &Dump, restarted: bool) {
+    fn check_power(&mut self, post: &Dump, restarted: bool, at_restart: Option<&Dump>) {
         for i in self.infos.clone() {
             let Some(after) = post.var(&i.path) else { continue };
             let saved = self.saved.as_ref().and_then(|s| s.get(&i.path)).cloned();
-            let fresh = fresh_of(&self.infos, &i, None);
+            // initialiser expressions are evaluated when the instance is created: by the build
+            // (globals at their declared values) or by the start-up restart (globals as that restart
+            // leaves them), in both cases before the load
+            let fresh = fresh_of(&self.infos, &i, at_restart);
             let expected = match (i.retains(), saved) {
                 (true, Some(s)) => s,
                 _ => fresh.clone(),
@@ -392,7 +395,9 @@ impl<'a> Runner<'a> {
                     }
                 }
                 Kind::Prog => {
-                    if i.retains() && after == fresh {
+                    // the saved value is lost and the variable shows an initial value: the one the
+                    // start-up restart computed, or the build's, kept by a warm start-up restart
+                    if i.retains() && (after == fresh || after == fresh_of(&self.infos, &i, None)) {
                         self.known("power-program-retain", format!("{}: after={} saved={}", i.path, after, expected));
                     } else if restarted && i.cfg.is_some() && after == i.init {
                         self.known("config-init-lost", format!("{}: {} after start-up restart", i.path, after));
@@ -612,14 +617,16 @@ impl<'a> Runner<'a> {
                 self.attach_driver(0)?;
                 let auto = self.store.unwrap_or(false);
                 self.op(0, Op::Store(auto))?;
+                let mut at_restart = None;
                 if let Some(m) = restart {
                     let before = self.last[0].clone().unwrap();
                     let d = self.op(0, Op::Restart(*m))?;
                     self.check_resets(&before, &d, *m);
+                    at_restart = Some(d);
                 }
                 let post = self.op(0, Op::Load)?;
                 self.out.count("power_cycles");
-                self.check_power(&post, restart.is_some());
+                self.check_power(&post, restart.is_some(), at_restart.as_ref());
             }
         }
         Ok(())
